@@ -23,5 +23,5 @@ for d in $seeds; do
   obl=$(grep '^VIOLATION' $ALT/$id.log | sed 's/.*replays\/[^/]*\///; s/\.json.*//' | tr '\n' ',' )
   wit=$(grep '^VIOLATION' $ALT/$id.log | grep -vc no-failing-input-found)
   echo -e "$id\t$prop\trc=$rc\t$((e-s))s\twitnessed=$wit\t$obl"
-done | tee seeded/MATRIX.tsv
+done | tee ${MATRIX_OUT:-seeded/MATRIX.tsv}
 git -C /repo worktree remove --force $WT; rm -rf $ALT
